@@ -153,8 +153,8 @@ func verifSort[V univers.Version[V], VR univers.VersionRange[V]](name string, e 
 		tail := valid[len(valid)-min(5, len(valid)):]
 		checkList(tail, verifPerms(tail))
 		// a window of five sliding over the whole pool, so that every neighbourhood of spellings meets in a short list
-		for at := 0; at+5 <= len(valid); at += 2 {
-			checkList(valid[at:at+5], verifPerms(valid[at:at+5]))
+		for at := 0; at+WINDOW <= len(valid); at += 2 {
+			checkList(valid[at:at+WINDOW], verifPerms(valid[at:at+WINDOW]))
 		}
 	}
 	// sampled shuffles of a 64-element list
@@ -164,7 +164,7 @@ func verifSort[V univers.Version[V], VR univers.VersionRange[V]](name string, e 
 		long[i] = valid[i%len(valid)]
 	}
 	var shuffles [][]string
-	for k := 0; k < 40; k++ {
+	for k := 0; k < SHUFFLES; k++ {
 		p := append([]string{}, long...)
 		rng.Shuffle(len(p), func(i, j int) { p[i], p[j] = p[j], p[i] })
 		shuffles = append(shuffles, p)
@@ -224,6 +224,13 @@ func sortHarnessSource(seed int) string {
 	src := strings.Replace(sortHarnessHead, "IMPORTS\n", imports.String(), 1)
 	src = strings.Replace(src, "CALLS\n", calls.String(), 1)
 	src = strings.Replace(src, "ECOLIST", quoteList(sortEcosystems), 1)
+	if harnessThorough {
+		src = strings.Replace(src, "SHUFFLES", "400", 1)
+		src = strings.ReplaceAll(src, "WINDOW", "6")
+	} else {
+		src = strings.Replace(src, "SHUFFLES", "40", 1)
+		src = strings.ReplaceAll(src, "WINDOW", "5")
+	}
 	return strings.Replace(src, "SEED", fmt.Sprint(seed), 1)
 }
 
